@@ -1049,6 +1049,96 @@ theorem drained_one_shot_answers_nothing (src : Source) (l : List Str) (date : O
 
 example : (StationsArg.iter (.oneShot [[111, 115, 108, 115]])).once = .list [[111, 115, 108, 115]] := rfl
 
+/-! ### Every registered history class has the shape the model gives it -/
+
+/-- what the model takes each file-source history class to read: the SINEX classes read one block of the station's
+source data each (`SiteCoord` two: the epochs give the intervals, the estimates the values) and key the history by the
+record's `(date_from, date_to)` = the block's start/end fields with an empty value standing for ∓∞; of the SSC classes
+only `SiteCoord` has a history, keyed by the `start`/`end` of the position/velocity records (`historyOf`).  Regenerated
+from the source text of every registered history class on every run: a new module or source class, another block,
+other date fields or another keying changes the table and this theorem no longer checks. -/
+def modelShapes : List (String × String × String × List String × List String × List String × List String × Bool) := [
+  ("Antenna", "snx", "AntennaHistorySinex", ["site_antenna"], ["AntennaSinex"], ["start_time"], ["end_time"], true),
+  ("Antenna", "ssc", "AntennaHistorySsc", [], [], [], [], false),
+  ("Eccentricity", "snx", "EccentricityHistorySinex", ["site_eccentricity"], ["EccentricitySinex"], ["start_time"], ["end_time"], true),
+  ("Eccentricity", "ssc", "EccentricityHistorySsc", [], [], [], [], false),
+  ("Receiver", "snx", "ReceiverHistorySinex", ["site_receiver"], ["ReceiverSinex"], ["start_time"], ["end_time"], true),
+  ("Receiver", "ssc", "ReceiverHistorySsc", [], [], [], [], false),
+  ("SiteCoord", "snx", "SiteCoordHistorySinex", ["solution_epochs", "solution_estimate"], ["SiteCoordSinex"], ["start_epoch"], ["end_epoch"], true),
+  ("SiteCoord", "ssc", "SiteCoordHistorySsc", [], ["SiteCoordSsc"], ["start"], ["end"], true)]
+
+/-- every registered history class of the file sources has the shape the model gives it; the only other source
+registered is the web API `m3g` (outside the property) -/
+theorem history_shapes :
+    (Generated.SiteInfoTables.historyShapes.filter (fun r => r.2.1 ≠ "m3g") == modelShapes) = true ∧
+    (Generated.SiteInfoTables.historyShapes.map (·.2.1)).eraseDups = ["m3g", "snx", "ssc"] ∧
+    (Generated.SiteInfoTables.registry.flatMap (fun m => m.2.map (·.1))).eraseDups = ["m3g", "snx", "ssc"] := by
+  refine ⟨?_, ?_, ?_⟩ <;> decide +kernel
+
+/-! ### Histories of in-place updates of the source data and queries -/
+
+/-- what a caller does with one source dictionary over time: replace its contents in place, or ask -/
+inductive Step
+  | update (src : Source)
+  | moduleGet (m : Module) (a : StationsArg) (date : Option DateQ)
+  | moduleHistory (m : Module) (a : StationsArg)
+  | allGet (a : StationsArg) (date : Option DateQ)
+  | allHistory (a : StationsArg)
+
+inductive Answer
+  | one (r : Except Err (List (Str × Val)))
+  | all (r : Except Err (List (Str × List (Module × Val))))
+
+/-- the answer of a query on given source data (`none` for an update) -/
+def answerOn (cur : Source) : Step → Option Answer
+  | .update _ => none
+  | .moduleGet m a d => some (.one (moduleGetArg m cur a d))
+  | .moduleHistory m a => some (.one (moduleGetHistoryArg m cur a))
+  | .allGet a d => some (.all (siteInfoGetArg cur a d))
+  | .allHistory a => some (.all (siteInfoGetHistoryArg cur a))
+
+/-- the contents of the dictionary after a step -/
+def contentsAfter (cur : Source) : Step → Source
+  | .update s => s
+  | _ => cur
+
+def contentsAt (s0 : Source) (steps : List Step) : Source := steps.foldl contentsAfter s0
+
+/-- the answers a history produces, in order -/
+def answers : Source → List Step → List Answer
+  | _, [] => []
+  | cur, st :: t =>
+    match answerOn cur st with
+    | some a => a :: answers (contentsAfter cur st) t
+    | none => answers (contentsAfter cur st) t
+
+theorem answers_append (s0 : Source) (pre post : List Step) :
+    answers s0 (pre ++ post) = answers s0 pre ++ answers (contentsAt s0 pre) post := by
+  induction pre generalizing s0 with
+  | nil => rfl
+  | cons st t ih =>
+    simp only [List.cons_append, answers, contentsAt, List.foldl_cons]
+    cases answerOn s0 st with
+    | none => exact ih _
+    | some a => simp only [List.cons_append]; rw [ih]; rfl
+
+/-- **every answer is a function of the source data as it is when the query is asked**: whatever updates and queries
+came before (`pre`) and come after (`post`), the query `q` is answered as on the current contents — nothing is
+remembered from earlier contents or earlier queries (the class of seeded change C18/r2-1) -/
+theorem answer_of_current_contents (s0 : Source) (pre post : List Step) (q : Step) (a : Answer)
+    (hq : answerOn (contentsAt s0 pre) q = some a) :
+    answers s0 (pre ++ q :: post) = answers s0 pre ++ a :: answers (contentsAt s0 pre) post := by
+  rw [answers_append]
+  simp only [answers, hq]
+  cases q with
+  | update s => simp [answerOn] at hq
+  | _ => rfl
+
+/-- in particular: an update followed by a query answers as a fresh dictionary with the new contents does -/
+theorem update_then_query (s0 s1 : Source) (pre : List Step) (m : Module) (a : StationsArg) (d : Option DateQ) :
+    answers s0 (pre ++ [.update s1, .moduleGet m a d]) = answers s0 pre ++ answers s1 [.moduleGet m a d] := by
+  rw [answers_append]; rfl
+
 /-! ### Non-vacuity -/
 
 example : histGet [((0, 10), 1), ((10, 20), 2)] 10 = some 2 := by decide +kernel
@@ -1141,3 +1231,7 @@ end Midgard.Props.C18
 #print axioms Midgard.Props.C18.stations_kind_irrelevant
 #print axioms Midgard.Props.C18.combined_eq_modules_arg
 #print axioms Midgard.Props.C18.drained_one_shot_answers_nothing
+#print axioms Midgard.Props.C18.history_shapes
+#print axioms Midgard.Props.C18.answers_append
+#print axioms Midgard.Props.C18.answer_of_current_contents
+#print axioms Midgard.Props.C18.update_then_query
